@@ -5,6 +5,10 @@ V = os.path.dirname(os.path.dirname(os.path.abspath(__file__)))
 ALL = [f"C{n:02d}" for n in range(1, 15)]
 
 CHECKS = {
+ "C01": dict(engine="prog-direct+prog-compiled",
+   text="Two layers. (1) The proc-macro's own command.rs and tree.rs, compiled into the harness by path, are driven directly: every ordered pair of declarations over P3 (all paths of depth 1..3 over the mnemonics A/Bb/TeST with each node optional or not, as command and query: 516) plus a special pool (digits, underscore, lower-case, common commands, the standard commands), and every ordered triple over P1 (thorough: P2) - 2.9e5 sets - go through the real Tree::insert and the resulting tree must equal the trie specified by the declaration texts. (2) 422 (quick) / several thousand (thorough) declaration sets are compiled through the real #[interface] macro and rustc; for each, the emitted static Node tree must equal the specified trie and every header of up to 4 levels over a near-miss pool (short, long, case variants, every abbreviation between short and long, one letter less / more, a foreign mnemonic; full product within a budget, plus every single/pair substitution, insertion, deletion and swap around each declared spelling; with and without leading ':' and '?') is executed through Interface::run on a fresh instance: it must call exactly the specified handler once, or nothing and report exactly one -113. Standard commands are checked for all four attribute configurations.",
+   note="Expected handler sets come from spec::header (alignment of mnemonics with declared short/long forms, optional nodes skipped), never from the macro's data structures. Spellings no header can produce (empty path / empty mnemonic) are ignored. Mnemonic pool and set size are bounded.",
+   technique="bounded exhaustive enumeration of declaration sets (programs) through the real macro, structural comparison with a specified trie, and exhaustive header sweeps executed on the generated code"),
  "C02": dict(engine="msg-enum",
    text="Every message of <=3 (quick) / <=4 (thorough) units over a 20-unit alphabet of relative, absolute and common headers on a tree where the same mnemonic exists at three levels, and every history of <=2 (quick) / <=3 (thorough) messages including empty, blank and ';'-terminated messages, is executed by the real Interface::run; the invoked handlers are compared with a text-level reference model of the SCPI path rules, each message alone is compared with the message in sequence, and every Pending pattern with <=2 suspended futures is compared with the unsuspended run. Exhaustive within these bounds.",
    note="Reference model spec::msg/spec::header (plain Rust, never calls microscpi); behaviour after the first faulty unit of a buffer is left to C06; one tree shape (Main).",
@@ -45,6 +49,10 @@ CHECKS = {
    text="A counting global allocator (per-thread counters of alloc/realloc/alloc_zeroed) is read before and after every call of run, process and write_response on exhaustive sweeps: all 7.5e8 token strings of <=6 tokens (thorough <=7) through run with a heapless writer, all streams of <=2 (thorough 3) pool messages through process::<16|64> under every chunking with <=2 cuts, and response value tables for every response type into a heapless writer; the count must be exactly 0. In addition one build obligation: a #![no_std] static library without global allocator that instantiates a macro-generated interface, run and process::<32> must build against the tree with default features.",
    note="The monitor is evaluated on every execution of an exhaustive exploration; the no_std build is a single deterministic obligation (not an exploration), reported as obligations:1 in the evidence. Harness recorders are pre-allocated so that the expected count is exactly zero.",
    technique="allocation monitor on every execution of bounded exhaustive sweeps of the real code, plus a no_std/no-allocator build obligation"),
+ "C14": dict(engine="prog-direct+prog-compiled",
+   text="Every ordered pair of declarations over P3 + special pool and every ordered triple over P1 (thorough P2) - 2.9e5 sets - is inserted through the macro's own Tree::insert (compiled into the harness by path): insertion must fail exactly when two different declarations of the same kind share a spelled path that a header can produce, at the right declaration and with CommandExists / QueryExists as appropriate. In the compiled layer all ordered pairs over P1 + a small special pool (thorough: P2, and triples over P1), user declarations meeting the standard commands under the four attribute configurations, and the repository's test interface go through the real macro and rustc: every colliding set sits in its own module of a crate that must fail to compile with the expected error in exactly those modules, every collision-free set is compiled and linked into the runner binary.",
+   note="Collision predicate from spec::header on declaration texts. rustc reports one error per panicking macro invocation; errors are attributed to modules by file name.",
+   technique="bounded exhaustive enumeration of declaration sets through the real macro (direct calls and rustc), accept/reject compared with a specified collision predicate"),
 }
 LEVEL = {"C10": "fault_enumeration"}  # property -> category override
 
@@ -53,6 +61,8 @@ ENGINES = [
  {"name": "msg-enum", "path": "harness/mc/src/spec/msg.rs", "kind_free_text": "exhaustive enumeration of structured messages and message histories, executed on the real run/process, compared with a text-level reference model"},
  {"name": "env-bfs", "path": "harness/mc/src/bin/c07.rs", "kind_free_text": "explicit-state BFS over read histories of the real process future, states merged on (stream position, hooked loop state, observation digest), re-execution from the initial state along the recorded history"},
  {"name": "hist-bfs", "path": "harness/mc/src/bin/c09.rs", "kind_free_text": "level-synchronous parallel BFS over operation histories of the real error queue, merged on canonical queue state"},
+ {"name": "prog-direct", "path": "harness/mc-macrocore/src/lib.rs", "kind_free_text": "the macro's command.rs/tree.rs included by path; exhaustive declaration sets through the real Tree::insert"},
+ {"name": "prog-compiled", "path": "harness/gen/prog.py", "kind_free_text": "declaration sets rendered into generated crates, compiled by the real attribute macro and rustc, executed by harness/mc/src/prog.rs"},
  {"name": "env-enum", "path": "harness/mc/src/env.rs", "kind_free_text": "scripted transport: all compositions of a stream into reads, zero-length reads, Pending patterns up to a deviation bound, a fault at every call index"},
 ]
 
